@@ -14,11 +14,13 @@ The property itself is the refinement
     convert f = .ok g → ∀ S fuel args vs, evalFunc S fuel f args = some vs → ∃ fuel', evalGraph S fuel' g args = some vs
 
 (`convert_correct`).  It is proved for straight-line functions incl. parallel assignment
-(`convert_correct_partial`) and for assignments with `if`/`else` nested to any depth
-(`convert_correct_ite_partial`); with loops it is still **false for the code as it is**:
-`loop_variable_not_rebound_witness` (C01-D31), `second_return_adds_output_witness` (C01-D33),
-`while_break_drops_condition_witness` (C01-D27), `castable_lost_at_if_witness` (C01-D24).  (C01-D23 and C01-D25
-were fixed in /repo by 4304e8f / 87ad64d; the model follows, their witnesses are regression examples.)
+(`convert_correct_partial`), for assignments with `if`/`else` nested to any depth
+(`convert_correct_ite_partial`), and for those plus top-level `for i in range(n)` and `while t` loops with or
+without a trailing `if b: break` (`convert_correct_for_partial`: loop-carried state, captured outer values, zero
+trips; by induction on the trip count resp. the fuel).  In general it is still **false for the code as it is**: `castable_lost_at_if_witness` (C01-D24).
+Fixed in /repo, the model follows: C01-D23 / D25 (4304e8f / 87ad64d; regression examples), C01-D31 (9b326d7:
+`loop_variable_live_after_loop_refused`), C01-D33 (9f69276: `non_last_return_refused`), C01-D27 (ddfea30:
+`while_break_keeps_condition_witness`), C01-D39 (0fa00ae: `while_does_not_capture_infinite_loop_witness`).
 What *is* proved, for all inputs and all operator meanings:
 
 * `exprs_read_only_used_vars`   — `_used_vars` is sound for expression evaluation;
@@ -27,10 +29,10 @@ What *is* proved, for all inputs and all operator meanings:
                                    variables an `If` exports and which a `Loop` carries: an unsound live set
                                    silently drops an output); `liveness_sound_loopfree` is the unconditional
                                    special case;
-* the refutations above, each from a concrete program that is replayed on the real converter
-  (harness/corpus_c01.jsonl).
-For loops (`for` / `while`) the equivalence of source and emitted graph on the generated stream is *tested*
-(eager vs onnxruntime vs NumPy interpreter), not proved.
+* the refutation and the regression witnesses above, each from a concrete program that is replayed on the real
+  converter (harness/corpus_c01.jsonl).
+For nested loops (and loops inside branches) the equivalence of source and emitted graph on the generated stream
+is *tested* (eager vs onnxruntime vs NumPy interpreter), not proved.
 -/
 namespace OV.Props.C01
 open OV.C01
@@ -140,8 +142,7 @@ for **every** input and **every** meaning of the operators (`Constant` total, `I
 The proof is a forward simulation whose invariant relates only the *live* Python variables to ONNX values
 (`OV.C01.Inv`); it uses `liveness` pass-through, the freshness and scoping theorems of C02, and the castable
 bookkeeping of the un-executed branch.
-`_partial`: loops are not covered (for `while` with a trailing break and for a loop variable used after the
-loop the statement is false for the code as it is: C01-D27, C01-D31), nor tuple assignment and attribute
+`_partial`: loops are not covered here (see `convert_correct_for_partial`), nor tuple assignment and attribute
 parameters; a bare literal may not be *assigned* (it would lose its polymorphism at the `If` boundary: C01-D24). -/
 theorem convert_correct_ite_partial {V : Type} (S : Sem V)
     (hConst : ∀ l, ∃ c, constOf S l = some c)
@@ -173,32 +174,40 @@ example : ifLine ifDemo.body = true ∧ (convert ifDemo).toOption.isSome = true
 
 /-! ### The refinement, third stage: `for i in range(n)` -/
 
-/-- **`convert_correct`, stage 3 (assignments, nested `if`/`else`, and `for i in range(n)` loops).**  For every
-function whose body consists of statements of the `if` fragment (see `convert_correct_ite_partial`) and
-top-level loops `for i in range(<expr>): <if-fragment body>` — the body may re-assign outer variables
-(loop-carried state), read outer values it never assigns (captured), branch on them, and run zero times —
-followed by `return e1, …, en`: whenever the model converter accepts it and reading the source as plain
-Python yields `vs`, the emitted graph — a `Loop` node whose body graph takes `(i, cond_in, state…)`, re-emits
-`cond_out = Identity(cond_in)`, and whose state is `assigned ∩ (exposed uses ∪ live_out)` in sorted order —
-evaluates to exactly `vs` at some fuel (hence at every larger one: `evalNodes_mono`), for **every** input,
-trip count and operator meaning (`Constant` total, `Identity` the identity, `true` is truthy).
-The proof is a simulation by induction on the remaining trip count with the invariant of stage 2
-(`OV.C01.Inv`) re-established at the head of every iteration (`OV.C01.for_step`).
-Side conditions (`forOK`), each needed for the code as it is: the loop variable is not read after the loop
-(C01-D31: the converter leaves it bound to the body-local name, the statement is false without this) and not
-assigned in the body; the liveness iteration reached its fixpoint (`stableStmt`; the real analysis iterates
-until it does).
-`_partial`: no `break` (C01-D27 refutes `while`+`break`; `for`+`break` is untested by proof), no `while`, no loop
-nested in a loop or in a branch, no tuple assignment, no attribute parameters. -/
+/-- **`convert_correct`, stage 3 (assignments, nested `if`/`else`, `for i in range(n)` and `while t` loops, with
+`break`).**  For every function whose body consists of statements of the `if` fragment (see
+`convert_correct_ite_partial`) and top-level loops `for i in range(<expr>): <if-fragment body> [if b: break]` or
+`while t: <if-fragment body> [if b: break]` — the body may re-assign outer variables (loop-carried state), read
+outer values it never assigns (captured), branch on them, run zero times, and end in `if b: break` — followed
+by `return e1, …, en`: whenever the model converter accepts it and reading the source as plain Python yields
+`vs`, the emitted graph — a `Loop` node (trip count for `for`, initial condition for `while`) whose body graph
+takes `(i, cond_in, state…)`, computes `cond_out` as `Identity(cond_in)` / `Not(b)` for `for` and `Identity(t)` /
+`And(t, Not(b))` for `while`, and whose state is `assigned ∩ (exposed uses ∪ live_out)` in sorted order —
+evaluates to exactly `vs` at some fuel (hence at every larger one: `evalGraph_fuel_mono`), for **every** input,
+trip count and operator meaning (`Constant` total, `Identity` the identity, `true` truthy, `Not` negating truth,
+`And` with a false right operand false and with a true one as true as its left operand).
+The proof is a simulation by induction on the remaining trip count (`for`) resp. on the source fuel (`while`)
+with the invariant of stage 2 (`OV.C01.Inv`) re-established at the head of every iteration (`OV.C01.for_step`,
+`forB_step`, `while_core`, `whileB_core`); after a `break` the ONNX loop stops on the false `cond_out` with the
+state of that very iteration, as Python does.
+Side conditions: `forOK` — the loop variable is not assigned in the body; `whileOK` — the condition variable is
+loop-carried or recomputed in the body before anything reads it; both — the liveness iteration reached its
+fixpoint (`stableStmt`; the real analysis iterates until it does).  That a `for` variable is not read after the
+loop is not a hypothesis: such loops are refused (`loop_variable_live_after_loop_refused`); that a `while` body
+cannot see the iteration counter holds since 0fa00ae (C01-D39).
+`_partial`: no loop nested in a loop or in a branch, no tuple assignment, no attribute parameters. -/
 theorem convert_correct_for_partial {V : Type} (S : Sem V)
     (hConst : ∀ l, ∃ c, constOf S l = some c)
     (hId : ∀ v, S.op "" "Identity" [some v] [] = some [v])
     (hT : S.truth (S.ofBool true) = some true)
+    (hNot : ∀ v b, S.truth v = some b → ∃ w, S.op "" "Not" [some v] [] = some [w] ∧ S.truth w = some (!b))
+    (hAnd : ∀ x y yb, S.truth y = some yb → ∃ w, S.op "" "And" [some x, some y] [] = some [w] ∧
+      (yb = false → S.truth w = some false) ∧ (yb = true → S.truth w = S.truth x))
     (f : Func) (g : Graph) (hfl : forLine f.body = true) (hten : AllTensorParams f.params)
     (hnames : (f.params.map Param.name).Nodup) (h : convert f = .ok g)
     (fuel : Nat) (args vs : List V) (he : evalFunc S fuel f args = some vs) :
     ∃ fuel', evalGraph S fuel' g args = some vs :=
-  convert_correct_for S hConst hId hT hfl hten hnames h he
+  convert_correct_for S hConst hId hT hNot hAnd hfl hten hnames h he
 
 /-- Graph evaluation is monotone in the fuel, so "some fuel" above means "every large enough fuel". -/
 theorem evalGraph_fuel_mono {V : Type} (S : Sem V) (g : Graph) (args vs : List V) (f f' : Nat) (hle : f ≤ f')
@@ -233,6 +242,28 @@ example : forLine forDemo.body = true ∧ (convert forDemo).toOption.isSome = tr
     ∧ evalFunc Sdemo 0 forDemo [1, 10, 0, 1] = some [1, 10]
     ∧ (match convert forDemo with
        | .ok g => evalGraph Sdemo 6 g [1, 10, 3, 0] == some [1, 3]
+       | .error _ => false) = true := by
+  refine ⟨by decide +kernel, by decide +kernel, by decide +kernel, by decide +kernel, by decide +kernel,
+    by decide +kernel⟩
+
+/-- Non-vacuity with `break`: `acc = A; for i in range(n): acc = acc + B; stop = acc == lim; if stop: break;
+return acc` — leaves the loop in the third of five trips, runs all five, or none. -/
+def forBrkDemo : Func :=
+  { name := "f", params := [.tensor "A", .tensor "B", .tensor "n", .tensor "lim"], retCount := none,
+    body := [
+      .assign "acc" (.var "A"),
+      .for_ "i" true (.var "n")
+        [.assign "acc" (.binop "Add" (.var "acc") (.var "B")),
+         .assign "stop" (.cmp "Eq" (.var "acc") (.var "lim")),
+         .brk (.var "stop")],
+      .ret [.var "acc"] false] }
+
+example : forLine forBrkDemo.body = true ∧ (convert forBrkDemo).toOption.isSome = true
+    ∧ evalFunc Sdemo 0 forBrkDemo [0, 2, 5, 6] = some [6]
+    ∧ evalFunc Sdemo 0 forBrkDemo [0, 2, 5, 99] = some [10]
+    ∧ evalFunc Sdemo 0 forBrkDemo [0, 2, 0, 6] = some [0]
+    ∧ (match convert forBrkDemo with
+       | .ok g => evalGraph Sdemo 7 g [0, 2, 5, 6] == some [6]
        | .error _ => false) = true := by
   refine ⟨by decide +kernel, by decide +kernel, by decide +kernel, by decide +kernel, by decide +kernel,
     by decide +kernel⟩
@@ -280,7 +311,7 @@ example : straightLine swapProg.body = true ∧ evalFunc S0 0 swapProg [1, 10] =
        | .error _ => false) = true := by
   refine ⟨by decide, by decide +kernel, by decide +kernel⟩
 
-/-! ### Two more divergences with semantic witnesses (findings C01-D31, C01-D33) -/
+/-! ### The refusals and the repair added by 9b326d7 (C01-D31), 9f69276 (C01-D33), ddfea30 (C01-D27) -/
 
 /-- `x = Identity(A); i = Add(A, A); for i in range(n): x = Add(x, A); return x, i` -/
 def loopVarProg : Func :=
@@ -291,14 +322,24 @@ def loopVarProg : Func :=
       .for_ "i" true (.var "n") [.assign "x" (.call "" "Add" tsig2 [.var "x", .var "A"] [])],
       .ret [.var "x", .var "i"] false] }
 
-/-- Finding C01-D31: the loop variable is bound only inside the body's scope, so after the loop the name `i`
-still denotes the pre-loop value in the graph (`A + A = 2`), while Python leaves the last index in it (`1`). -/
-theorem loop_variable_not_rebound_witness :
-    evalFunc S0 5 loopVarProg [1, 2] = some [3, 1]
-    ∧ (match convert loopVarProg with
-       | .ok g => evalGraph S0 5 g [1, 2] == some [3, 2]
+/-- **A `for` loop whose loop variable is read after the loop is refused** (C01-D31, fixed by 9b326d7).  Python
+leaves the last index in the loop variable; the translation binds it only inside the loop body, so before the fix
+the graph silently used the value from before the loop (`loopVarProg`: Python `[3, 1]`, graph `[3, 2]`).  Now,
+whatever the scope, bound, body and converter state, `convStmt` fails when `i ∈ live_out`.  This is what lets
+`convert_correct_for_partial` go without a side condition on the uses of the loop variable. -/
+theorem loop_variable_live_after_loop_refused (L : Locals) (i : Name) (ok : Bool) (b : Expr) (body : List Stmt)
+    (lo : VSet) (hi : i ∈ lo) (s : St) (r : (Locals × List Node) × St) :
+    convStmt L (.for_ i ok b body) lo s ≠ .ok r :=
+  for_live_target_refused L i ok b body lo hi s r
+
+/-- Regression witness of C01-D31: the program is refused with a TranslationError; with the second returned
+value dropped it is accepted and agrees with Python. -/
+example : (match convert loopVarProg with | .error .translation => true | _ => false) = true
+    ∧ evalFunc S0 5 { loopVarProg with body := loopVarProg.body.dropLast ++ [.ret [.var "x"] false] } [1, 2] = some [3]
+    ∧ (match convert { loopVarProg with body := loopVarProg.body.dropLast ++ [.ret [.var "x"] false] } with
+       | .ok g => evalGraph S0 5 g [1, 2] == some [3]
        | .error _ => false) = true := by
-  constructor <;> decide +kernel
+  refine ⟨by decide +kernel, by decide +kernel, by decide +kernel⟩
 
 /-- `x = Neg(A); return x; return Abs(A)` -/
 def twoReturns : Func :=
@@ -308,15 +349,17 @@ def twoReturns : Func :=
       .ret [.var "x"] false,
       .ret [.call "" "Abs" tsig [.var "A"] []] false] }
 
-/-- Finding C01-D33: every top-level `return` appends to the graph outputs; Python returns at the first one. -/
-theorem second_return_adds_output_witness :
-    evalFunc S0 0 twoReturns [5] = some [-5]
-    ∧ (match convert twoReturns with
-       | .ok g => evalGraph S0 0 g [5] == some [-5, 5]
-       | .error _ => false) = true := by
-  constructor <;> decide +kernel
+/-- **A `return` that is not the last statement of the function body is refused** (C01-D33, fixed by 9f69276).
+Before the fix every top-level `return` appended to the graph outputs (`twoReturns`: Python one value, graph
+two). -/
+theorem non_last_return_refused (inputs : List Name) (rc : Option Nat) (L : Locals) (es : List Expr) (bare : Bool)
+    (st : Stmt) (ss : List Stmt) (outs : List Name) (s : St) (r : (List Node × List Name) × St) :
+    convTop inputs rc L (.ret es bare :: st :: ss) outs s ≠ .ok r :=
+  OV.C01.non_last_return_refused inputs rc L es bare st ss outs s r
 
-/-! ### Structural witnesses of two more divergences (findings C01-D27, C01-D24) -/
+example : (match convert twoReturns with | .error .translation => true | _ => false) = true := by decide +kernel
+
+/-! ### `while` with a trailing break (C01-D27, fixed by ddfea30), and C01-D24 -/
 
 def bsig : Sig := { known := true, variadic := false, homog := true, tvs := [some "T", some "T"] }
 
@@ -339,15 +382,74 @@ def condNodeOfFirstLoop : List Node → Option Node
   | _ :: rest => condNodeOfFirstLoop rest
   | [] => none
 
-/-- Finding C01-D27: with a trailing `if b: break` the Loop body's continuation condition is `Not(b)` alone — the
-re-computed `while` condition `c` does not reach it. -/
-theorem while_break_drops_condition_witness :
+/-- Operators over `Int` for the `while` witness (booleans as 0/1). -/
+def S1 : Sem Int where
+  op := fun _ name ins _ =>
+    match name, ins with
+    | "Add", [some a, some b] => some [a + b]
+    | "Less", [some a, some b] => some [if a < b then 1 else 0]
+    | "Greater", [some a, some b] => some [if a > b then 1 else 0]
+    | "Not", [some a] => some [if a = 0 then 1 else 0]
+    | "And", [some a, some b] => some [if a ≠ 0 ∧ b ≠ 0 then 1 else 0]
+    | "Identity", [some a] => some [a]
+    | _, _ => none
+  truth := fun v => some (v ≠ 0)
+  natOf := fun v => some v.toNat
+  ofNat := fun n => Int.ofNat n
+  ofBool := fun b => if b then 1 else 0
+
+/-- Regression witness of C01-D27 (fixed by ddfea30).  Before the fix the continuation condition of the Loop body
+was `Not(b)` alone, so the re-computed `while` condition `c` was ignored after the first iteration (this input:
+Python `16`, graph `128`).  Now it is `And(c, Not(b))`, and source and graph agree when the loop ends through `c`
+(lim = 10) as well as through the `break` (big = 7).  The program is in the fragment of
+`convert_correct_for_partial` (non-vacuity of its `while` + `break` part). -/
+theorem while_break_keeps_condition_witness :
+    forLine whileBreak.body = true ∧
     (match convert whileBreak with
      | .ok g =>
        (match condNodeOfFirstLoop g.nodes with
-        | some (.op _ "Not" [some b] _ _) => b == "b"
+        | some (.op _ "And" [some _, some _] _ _) => true
         | _ => false)
-     | .error _ => false) = true := by decide +kernel
+       && evalGraph S1 12 g [1, 10, 100, 1] == some [16] && evalGraph S1 12 g [1, 100, 7, 1] == some [8]
+     | .error _ => false) = true
+    ∧ evalFunc S1 12 whileBreak [1, 10, 100, 1] = some [16]
+    ∧ evalFunc S1 12 whileBreak [1, 100, 7, 1] = some [8] := by
+  refine ⟨by decide +kernel, by decide +kernel, by decide +kernel, by decide +kernel⟩
+
+/-- `il = Add(x0, x0); x = Identity(x0); c = Identity(c0); while c: x = Add(x, infinite_loop); c = Less(x, lim)` with
+the user variable `il` spelled `infinite_loop`. -/
+def capProg : Func :=
+  { name := "f", params := [.tensor "x0", .tensor "lim", .tensor "c0"], retCount := none,
+    body := [
+      .assign "infinite_loop" (.call "" "Add" bsig [.var "x0", .var "x0"] []),
+      .assign "x" (.call "" "Identity" tsig [.var "x0"] []),
+      .assign "c" (.call "" "Identity" tsig [.var "c0"] []),
+      .while_ (.var "c") [
+        .assign "x" (.call "" "Add" bsig [.var "x", .var "infinite_loop"] []),
+        .assign "c" (.call "" "Less" bsig [.var "x", .var "lim"] [])],
+      .ret [.var "x"] false] }
+
+def firstLoopBody : List Node → Option (List Name × List Node)
+  | .loop _ _ _ _ bi bn _ :: _ => some (bi, bn)
+  | _ :: rest => firstLoopBody rest
+  | [] => none
+
+/-- Regression witness of C01-D39 (fixed by 0fa00ae).  `_translate_loop_stmt` used to bind the placeholder name
+`infinite_loop` to the iteration-number input of a `while` loop's body graph, so a user variable of that name was
+captured inside the body (the `Add` read the iteration counter: `1, 2, 4, 7, 11` where Python has `1, 3, 5, 7, 9`).
+Now the body reads the outer value, source and graph agree, and the program is in the fragment of
+`convert_correct_for_partial`. -/
+theorem while_does_not_capture_infinite_loop_witness :
+    forLine capProg.body = true ∧
+    (match convert capProg with
+     | .ok g =>
+       (match firstLoopBody g.nodes with
+        | some (iv :: _, .op _ "Add" [_, some y] _ _ :: _) => y != iv
+        | _ => false)
+       && evalGraph S1 12 g [1, 8, 1] == some [9]
+     | .error _ => false) = true
+    ∧ evalFunc S1 12 capProg [1, 8, 1] = some [9] := by
+  refine ⟨by decide +kernel, by decide +kernel, by decide +kernel⟩
 
 /-- `if c: x = 1 else: x = 2; y = A + x` -/
 def castLost : Func :=
